@@ -62,12 +62,18 @@ def dump(h5dump, path):
             d["dsets"][t[1]] = (int(t[2]), int(t[3]), dims, t[i + 1:])
         elif t[0] == "attr":
             i = t.index(":")
-            d["attrs"][t[1]] = t[i + 1:]
+            d["attrs"][t[1]] = (int(t[2]), int(t[3]), t[i + 1:])
         elif t[0] == "group":
             d["groups"].append(t[1])
         elif t[0] == "error":
             d["ok"] = False
     return d
+
+
+def avals(at):
+    """numeric values of an attribute (cls, size, tokens)"""
+    cls, size, toks = at
+    return fvals((cls, size, [len(toks)], toks))
 
 
 def fvals(ds):
@@ -80,4 +86,4 @@ def fvals(ds):
     return [int(x) for x in toks]
 
 
-BASE_ARGS = ["--config", "/dev/null", "--cldev", "0", "--verbose=0"]
+BASE_ARGS = ["--config", "/dev/null", "--cldev", "0"]
